@@ -226,6 +226,8 @@ def _run(ctx, w):
     from rules import c02
     c02.relayout_clears_wrap(ctx, w, S, R, "P10")
     c02.row_units(ctx, w, S, R, "P11")
+    from rules import c01 as _c01
+    _c01.loop_index(ctx, w, S, _c01.api_reach(w))
 
     relayout_after_switch(ctx, w, S, R, rule="P7")
     from rules import c14
